@@ -69,7 +69,7 @@ def plan(tier, seed):
     us = universes(tier, seed)
     units = []
     for name, specs in us:
-        for ch in U.chunks(specs, 4):
+        for ch in U.chunks(specs, 4 if tier == "quick" else 1):   # thorough: one network per unit (short drain after the wall budget)
             units.append((name, ch, tier))
     return {
         "units": units, "universes": {n: len(s) for n, s in us},
